@@ -1049,6 +1049,12 @@ def _ord_is(I, st, fid, bi, a, c, t):
     v = a[0]
     name = (c.get('path') or '').split('::')[-1]
     want = {'is_lt': {'Less'}, 'is_le': {'Less', 'Equal'}, 'is_gt': {'Greater'}, 'is_ge': {'Greater', 'Equal'}, 'is_eq': {'Equal'}, 'is_ne': {'Less', 'Greater'}}[name]
+    if isinstance(v, tuple) and v and v[0] == 'ordcmp':
+        # a.cmp(&b).is_lt() is a < b, and so on: the comparison itself
+        op = {'is_lt': 'lt', 'is_le': 'le', 'is_gt': 'lt', 'is_ge': 'le', 'is_eq': 'eq', 'is_ne': 'eq'}[name]
+        x, y = (v[2], v[1]) if name in ('is_gt', 'is_ge') else (v[1], v[2])
+        r = cmp(op, x, y)
+        return neg(r) if name == 'is_ne' else r
     sv = I.static_variant(v)
     if sv is not None:
         return TRUE if sv in want else FALSE
@@ -1056,3 +1062,20 @@ def _ord_is(I, st, fid, bi, a, c, t):
         if ('is', v, n) in st.facts:
             return TRUE if n in want else FALSE
     return None
+
+
+def _enum_as_ref(good, bad, adt):
+    def h(I, st, fid, bi, a, c, t):
+        # &mut Result<T, E> -> Result<&mut T, &mut E> (same for Option): references to the payload in place
+        lv = target_lv(a[0])
+        v = deref(I, st, a[0])
+        wrap_good = ok if good == 'Ok' else some
+        return _opt_cases(I, st, fid, bi, v, good,
+                          lambda s, p: wrap_good(('addr', ('fld', ('variant', lv, good), adt + '.0'))),
+                          (lambda s: err(('addr', ('fld', ('variant', lv, bad), adt + '.0')))) if good == 'Ok' else (lambda s: NONE), 'as_ref')
+    return h
+
+
+for _n in ('as_ref', 'as_mut'):
+    TABLE.setdefault('core::result::Result::<T, E>::' + _n, _enum_as_ref('Ok', 'Err', 'core::result::Result'))
+    TABLE.setdefault('core::option::Option::<T>::' + _n, _enum_as_ref('Some', 'None', 'core::option::Option'))
